@@ -22,7 +22,7 @@ REQUIRED_CLAUSES = ['under-warnings-as-errors', 'concurrent-calls-answer-as-alon
 ASSUMPTIONS = ['exact answer computed with fractions.Fraction from the generator components',
                'float results are compared within 4 ulp; integer results exactly, except where the '
                'known finding K10 (float arithmetic before ceil) applies by its input predicate']
-INTERPRETER_FLAGS = [[], ['-O'], [], ['-bb']]
+INTERPRETER_FLAGS = [[], ['-O'], ['-X', 'dev'], ['-bb']]
 CONCURRENT = lambda case: case.get('kind') != 'twins' and (case.get('kind') == 'stb')          # pure function of its arguments; see vlib/concurrent.py
 SHARDS = {'quick': 4, 'thorough': 16}
 
@@ -223,7 +223,21 @@ def _evaluate_plain(ctx, case):
         field, spelling, want = case['field'], case['spelling'], case['want']
         label = {'virtual_size': 'virtual size', 'disk_size': 'disk size',
                  'cluster_size': 'cluster_size'}[field]
-        text = 'image: x.img\nfile format: qcow2\n%s: %s\n' % (label, spelling)
+        line = '%s: %s' % (label, spelling)
+        # where the field stands in the report: early, last after other fields, right after a snapshot table (with rows or
+        # with its header only), printed between backing-file and format-specific lines
+        layout = case.get('layout', 0)
+        snap_hdr = 'Snapshot list:\nID        TAG                 VM SIZE                DATE       VM CLOCK'
+        snap_row = '1        d9a9784a500742a7bb95627bb3aace38    0 2012-08-20 10:52:46 00:00:00.000'
+        text = ['image: x.img\nfile format: qcow2\n%s\n' % line,
+                'image: x.img\nfile format: qcow2\nbacking file: /b.img (actual path: /a/b.img)\nencrypted: yes\n%s\n' % line,
+                'image: x.img\nfile format: qcow2\n%s\n%s\n%s\n' % (snap_hdr, snap_row, line),
+                'image: x.img\nfile format: qcow2\n%s\n%s\n' % (snap_hdr, line),
+                'image: x.img\n%s\nfile format: qcow2\n%s\n%s\n%s\n' % (line, snap_hdr, snap_row, snap_row),
+                'image: x.img\nfile format: qcow2\n%s\nFormat specific information:\n    compat: 1.1\n    lazy refcounts: false\n' % line,
+                ][layout % 6]
+        ctx.h('qemu report layout', ('field third', 'after backing file and encrypted', 'right after a snapshot table with a row',
+                                     'right after a snapshot table header', 'before the snapshot table', 'before format specific information')[layout % 6])
         try:
             with warnings.catch_warnings():
                 warnings.simplefilter('ignore')
@@ -315,10 +329,22 @@ def qemu_cases(rng, n):
         ex = Fraction(m) * 1024 ** e
         out.append(dict(field=field, spelling='%s%s%s' % (m, rng.choice(['', ' ']), u), want=math.ceil(ex),
                         k10=not _is_double(Fraction(m)) or not _is_double(ex), cls='tiny-decimal+letter'))
-    for c in out:
+    # an explicit byte count next to a human figure that is not a size of the binary system at all: the count is the answer
+    for i in range(max(12, n // 40)):
+        nbytes = rng.choice([rng.getrandbits(45), 10000, 512, 1536, 0, 1, 2 ** 63])
+        human = rng.choice(['10 kB', '0.5k', '1.5', '1.0 GiBytes', '1e3', '7 blocks', '1.5 GB', '100 sectors', '2 kib', '3 Mb', '12 Q'])
+        out.append(dict(field=fields[i % 3], spelling='%s (%d bytes)' % (human, nbytes), want=nbytes,
+                        cls='odd-human-figure+explicit-bytes'))
+    for j, c in enumerate(out):
         c['kind'] = 'qemu'
+        c['layout'] = rng.randrange(6) if j % 2 else 0
     return out
 
+
+
+def REJECTED_FUNCS(ctx):
+    from oslo_utils import strutils
+    return [strutils.string_to_bytes]
 
 
 def HAMMER(ctx):
